@@ -39,6 +39,9 @@ use std::sync::Arc;
 use std::time::Duration;
 use vls_persist::kvv::memory::MemoryKVVStore;
 use vls_persist::kvv::{JsonFormat, KVVPersister};
+use vls_protocol_signer::approver::{Approve, NegativeApprover, PositiveApprover};
+use lightning_signer::channel::{Channel, ChannelId};
+use lightning_signer::lightning::sign::ChannelSigner;
 
 const INITIAL_COMMITMENT_NUMBER: u64 = (1 << 48) - 1;
 const CHANNEL_VALUE: u64 = 10_000_000;
@@ -204,7 +207,13 @@ impl World {
             OutPoint { txid: Txid::from_slice(&[0xa0 + i as u8; 32]).unwrap(), vout: 0 };
         self.ctx
             .node
-            .setup_channel(chan_ctx.channel_id.clone(), None, chan_ctx.setup.clone(), &Default::default())
+            // every second channel gets a permanent id different from its initial id (the ledger is keyed by id0)
+            .setup_channel(
+                chan_ctx.channel_id.clone(),
+                if i % 2 == 1 { Some(ChannelId::new(&[0xc0 + i as u8; 32])) } else { None },
+                chan_ctx.setup.clone(),
+                &Default::default(),
+            )
             .expect("setup_channel");
         let mut c0 = channel_commitment(&self.ctx, &chan_ctx, 0, FEERATE, BASE_HOLDER, BASE_CP, vec![], vec![]);
         let (csig, hsigs) = counterparty_sign_holder_commitment(&self.ctx, &chan_ctx, &mut c0);
@@ -480,8 +489,8 @@ impl Group for C06Node {
     fn rule(&self) -> &'static str {
         "one real Node with 2-3 channels; payment hashes from an alphabet of 3; HTLC values around the approved amounts \
          (amount, amount+fee allowance, +1 sat, 10%/11% fee) and cltv values around the cltv_delta bound; random interleavings of \
-         counterparty-commitment signing, holder-commitment validation and revocation per channel with diverging holder/counterparty \
-         views, multi-part splits over channels, add/remove, retries, approvals through add_keysend and add_invoice (real signed BOLT-11; duplicates, different invoice for the same hash, u64 extremes), \
+         (phase-2 and, for a third of the requests, phase-1) counterparty-commitment signing, holder-commitment validation and revocation per channel with diverging holder/counterparty \
+         views, multi-part splits over channels, add/remove, retries, approvals through the approver of vls-protocol-signer (handle_proposed_keysend / handle_proposed_invoice, PositiveApprover and now and then NegativeApprover) into add_keysend and add_invoice (real signed BOLT-11; duplicates, different invoice for the same hash, u64 extremes), \
          a third of the worlds under a finite hourly node-wide velocity limit (refused approvals followed by HTLCs for the hash and by retried approvals), \
          preimages, heartbeat pruning under a manual clock, restarts through the real persister; a case is non-trivial when it \
          contains an accepted commitment request carrying HTLCs and a refused commitment request"
@@ -505,6 +514,10 @@ impl Group for C06Node {
                 };
                 Some(format!("init {} {} {} {} {} {}", nch, p.max_routing_fee_msat, p.max_feerate_percentage, p.cltv_delta, vl, vt))
             }
+            ["keysend", a, b, c, "direct"] => Some(format!("keysend {} {} {}", a, b, c)),
+            ["invoice", a, b, c, d, e, "direct"] => Some(format!("invoice {} {} {} {} {}", a, b, c, d, e)),
+            ["cpsign", a, b, c, d, "p1"] => Some(format!("cpsign {} {} {} {}", a, b, c, d)),
+            ["hval", a, b, c, d, "p1"] => Some(format!("hval {} {} {} {}", a, b, c, d)),
             _ => Some(op.to_string()),
         }
     }
@@ -538,6 +551,22 @@ impl Group for C06Node {
             split(&format!(
                 "init 2|invoice 0 100000000 {t} 3600 0|invoice 0 100000000 {t} 3600 0|invoice 0 100000000 {t} 3600 1|keysend 0 100000000 {t}|cpsign 0 new - 0:100222:500|fulfill 0 0|cprevoke 0|cpsign 0 new - -|heartbeat {}|heartbeat {}|cpsign 1 new - 0:600:500",
                 t + 90_000, t + 90_001)),
+            // the approver says no: nothing is registered, the HTLC is refused; a yes afterwards is a fresh approval
+            split(&format!("init 2|keysend 0 100000000 {t} neg|cpsign 0 new - 0:100000:500|invoice 1 50000000 {t} 3600 0 neg|hval 1 new 1:50000:500 - p1|keysend 0 100000000 {t}|keysend 0 100000000 {t} neg|keysend 0 5 {t} neg|cpsign 0 new - 0:100000:500 p1")),
+            // F2 shape and the multi-part limit through the phase-1 entry points, second channel with a permanent id, restart
+            split(&format!("init 2|keysend 0 100000000 {t}|hval 0 new 0:100000:500 - p1|cpsign 1 new - 0:100000:500 p1|revoke 0|cprevoke 1|cpsign 1 new - 0:50000:500 p1|revoke 0|hval 0 new 0:50222:500 - p1|revoke 0|restart|cprevoke 1|cpsign 1 new - 0:50001:500 p1|cpsign 1 new - 0:50000:500,0:600:500 p1")),
+            // diverging INCOMING views for an approved hash: only the smaller one (min of the views) may back outgoing value
+            split(&format!("init 2|keysend 0 100000000 {t}|hval 0 new - 0:600:600|revoke 0|cpsign 0 new 0:100000:600 0:200000:500|cpsign 0 new 0:100000:600 0:100822:500|cpsign 0 new 0:100000:600 0:100823:500 p1|hval 1 new - 0:100000:600 p1|revoke 1|cpsign 1 new 0:600:600 0:100000:500")),
+            // a preimage for a routed (uninvoiced) payment is persisted with the next node-state write and survives a restart
+            split(&format!("init 2|hval 0 new - 0:2000:600|revoke 0|cpsign 0 new 0:2000:600 -|fulfill 0 0|keysend 1 1000 {t}|restart|cpsign 1 new - 0:2000:500|heartbeat {}|restart", t + 5)),
+            // routed payment whose incoming part is gone (issue-331 tolerance): the entry must survive the heartbeat while
+            // value is still outgoing, and a restart; once nothing is in flight the heartbeat drops it and the hash is unseen again
+            split(&format!("init 3|hval 0 new - 1:50000:600|revoke 0|cpsign 0 new 1:50000:600 -|cpsign 1 new - 1:50000:500|cprevoke 0|cpsign 0 new - -|heartbeat {}|cpsign 2 new - 1:600:500|restart|heartbeat {}|cprevoke 2|cpsign 2 new - 1:600:500,1:700:500|cprevoke 1|cpsign 1 new - -|cprevoke 2|cpsign 2 new - -|hval 0 new - -|revoke 0|heartbeat {}|cprevoke 2|cpsign 2 new - 1:600:500", t + 1, t + 2, t + 3)),
+            // add_invoice / add_keysend called directly (no approver shortcut in front): repeat, different invoice, keysend over invoice
+            split(&format!("init 2|invoice 0 100000000 {t} 3600 0 direct|invoice 0 100000000 {t} 3600 0 direct|invoice 0 100000000 {t} 3600 1 direct|keysend 0 100000000 {t} direct|keysend 1 5000000 {t} direct|keysend 1 7000000 {t} direct|invoice 1 5000000 {t} 3600 0 direct|cpsign 0 new - 1:5222:500|cpsign 1 new - 1:600:500")),
+            // an unfulfilled keysend past its prune time stays approved while its HTLC is in flight: the repeat is a repeat,
+            // a second payment on another channel is refused; after the HTLC left, the heartbeat prunes it
+            split(&format!("init 2|keysend 0 100000000 {t}|cpsign 0 new - 0:100000:500|heartbeat {}|keysend 0 100000000 {}|cpsign 1 new - 0:100000:500|restart|heartbeat {}|cpsign 1 new - 0:100000:500 p1|cprevoke 0|cpsign 0 new - -|heartbeat {}|cpsign 1 new - 0:600:500", t + 61, t + 61, t + 62, t + 63)),
             // u64 extreme approval: a + max_routing_fee overflows
             split(&format!("init 2|keysend 0 18446744073709551615 {t}|cpsign 0 new - 0:2000:500|cpsign 1 new - -")),
         ]
@@ -553,10 +582,16 @@ impl Group for C06Node {
             ops[0] = format!("init {} {} h", nch, l);
         }
         let approval = |rng: &mut Rng, h: u64, amt: u64, now: u64| -> String {
-            if rng.chance(1, 2) && amt <= 1_000_000_000_000 {
+            let line = if rng.chance(1, 2) && amt <= 1_000_000_000_000 {
                 format!("invoice {} {} {} 3600 {}", h, amt, now, rng.below(2))
             } else {
                 format!("keysend {} {} {}", h, amt, now)
+            };
+            // now and then the approver (user) says no
+            match rng.below(8) {
+                0 => format!("{} neg", line),
+                1 | 2 => format!("{} direct", line),
+                _ => line,
             }
         };
         let mut sims: Vec<Sim> = vec![Sim::default(); nch];
@@ -595,6 +630,74 @@ impl Group for C06Node {
             sims[a].cp_out.push((h, va, 500));
             ops.push(sims[a].cpsign(a, "new"));
         }
+        if rng.chance(1, 8) {
+            // a routed payment A -> B whose incoming part is removed first (tolerated), a heartbeat, then more outgoing value
+            let h = rng.below(NHASH as u64) as usize;
+            let (a, b) = (0usize, 1usize);
+            let v = *rng.pick(&[2_000u64, 50_000]);
+            sims[a].h_inc.push((h, v, 600));
+            ops.push(sims[a].hval(a, "new"));
+            ops.push(format!("revoke {}", a));
+            sims[a].cp_inc.push((h, v, 600));
+            ops.push(sims[a].cpsign(a, "new"));
+            sims[b].cp_out.push((h, v, 500));
+            ops.push(sims[b].cpsign(b, "new"));
+            sims[a].cp_inc.clear();
+            ops.push(format!("cprevoke {}", a));
+            ops.push(sims[a].cpsign(a, "new"));
+            now += 1;
+            ops.push(format!("heartbeat {}", now));
+            if rng.chance(1, 2) {
+                ops.push("restart".into());
+            }
+            let c2 = nch - 1;
+            sims[c2].cp_out.push((h, 600, 500));
+            ops.push(format!("cprevoke {}", c2));
+            ops.push(sims[c2].cpsign(c2, "new"));
+        }
+        if rng.chance(1, 8) {
+            // pay a keysend, let its prune time pass (sometimes with the preimage known), heartbeat, approve again, pay again elsewhere
+            let h = rng.below(NHASH as u64) as usize;
+            let (a, b) = (0usize, nch - 1);
+            ops.push(format!("keysend {} 100000000 {}", h, now));
+            sims[a].cp_out.push((h, 100_000, 500));
+            ops.push(sims[a].cpsign(a, "new"));
+            if rng.chance(1, 4) {
+                ops.push(format!("fulfill {} {}", a, h));
+            }
+            now += *rng.pick(&[60u64, 61, 100]);
+            ops.push(format!("heartbeat {}", now));
+            if rng.chance(1, 3) {
+                ops.push("restart".into());
+            }
+            ops.push(format!("keysend {} 100000000 {}", h, now));
+            sims[b].cp_out.push((h, *rng.pick(&[100_000u64, 600]), 500));
+            ops.push(sims[b].cpsign(b, "new"));
+        }
+        if rng.chance(1, 6) {
+            // an approved hash whose incoming HTLC differs between the holder and the counterparty view, then outgoing
+            // value that only the larger incoming view would cover
+            let h = rng.below(NHASH as u64) as usize;
+            let c = rng.below(nch as u64) as usize;
+            let (small, big) = (600u64, *rng.pick(&[50_000u64, 100_000]));
+            let amt_sat = *rng.pick(&[50_000u64, 100_000]);
+            ops.push(format!("keysend {} {} {}", h, amt_sat * 1000, now));
+            let holder_small = rng.chance(1, 2);
+            sims[c].h_inc.push((h, if holder_small { small } else { big }, 600));
+            ops.push(sims[c].hval(c, "new"));
+            ops.push(format!("revoke {}", c));
+            sims[c].cp_inc.push((h, if holder_small { big } else { small }, 600));
+            let out = amt_sat + *rng.pick(&[big, small + 222, small + 223, big + 222]);
+            let oc = if rng.chance(1, 2) { c } else { (c + 1) % nch };
+            if oc == c {
+                sims[c].cp_out.push((h, out, 500));
+                ops.push(sims[c].cpsign(c, "new"));
+            } else {
+                ops.push(sims[c].cpsign(c, "new"));
+                sims[oc].cp_out.push((h, out, 500));
+                ops.push(sims[oc].cpsign(oc, "new"));
+            }
+        }
         while ops.len() < len + 1 {
             let c = rng.below(nch as u64) as usize;
             match rng.below(100) {
@@ -612,7 +715,7 @@ impl Group for C06Node {
                     };
                     let line = approval(rng, h, amt, now);
                     ops.push(line.clone());
-                    if vlimit.is_some() && rng.chance(1, 2) {
+                    if (vlimit.is_some() || line.ends_with("neg")) && rng.chance(1, 2) {
                         // the approval may have been refused by the velocity limit: try to pay it anyway, then ask again
                         let v = (amt / 1000).clamp(600, 200_000);
                         let s = &mut sims[c];
@@ -700,6 +803,12 @@ impl Group for C06Node {
                 _ => now += *rng.pick(&[1u64, 59, 61]),
             }
         }
+        // a third of the commitment requests go through the phase-1 entry points (transaction + witness scripts)
+        for op in ops.iter_mut() {
+            if (op.starts_with("cpsign ") || op.starts_with("hval ")) && rng.chance(1, 3) {
+                op.push_str(" p1");
+            }
+        }
         ops
     }
 
@@ -763,18 +872,42 @@ fn approval_class(r: &Result<bool, lightning_signer::util::status::Status>, op: 
 /// executes one op; returns (result class, the request carried HTLCs)
 fn exec_op(w: &mut World, t: &[&str], at: usize, co: &mut CaseOut) -> Option<(String, bool)> {
     match t {
-        ["keysend", h, amt, now] => {
+        ["keysend", h, amt, now, ap @ ..] => {
+            let (negative, direct) = match ap {
+                [] => (false, false),
+                ["neg"] => (true, false),
+                ["direct"] => (false, true),
+                _ => return None,
+            };
             let h: usize = h.parse().ok()?;
             let amt: u64 = amt.parse().ok()?;
             let now: u64 = now.parse().ok()?;
             let h = h % NHASH;
             w.clock.set(Duration::from_secs(now));
-            let r = w.ctx.node.add_keysend(make_test_pubkey(1), phash(h), amt);
-            let cls = approval_class(&r, "keysend", co);
+            // through the approver of vls-protocol-signer, as the protocol handler does
+            let r = if direct {
+                // straight into the node (what the approver does after saying yes), so that add_keysend's own
+                // "already have this hash" branch is exercised as well
+                w.ctx.node.add_keysend(make_test_pubkey(1), phash(h), amt)
+            } else if negative {
+                NegativeApprover().handle_proposed_keysend(&w.ctx.node, make_test_pubkey(1), phash(h), amt)
+            } else {
+                PositiveApprover().handle_proposed_keysend(&w.ctx.node, make_test_pubkey(1), phash(h), amt)
+            };
+            let cls = approval_class(&r, if negative { "keysend-neg" } else { "keysend" }, co);
+            if negative {
+                co.tags.insert(format!("keysend-neg:{}", cls));
+            }
             w.note_answer(h, r.ok(), amt, now + KEYSEND_EXPIRY, co);
             Some((cls, false))
         }
-        ["invoice", h, amt, now, expiry, tag] => {
+        ["invoice", h, amt, now, expiry, tag, ap @ ..] => {
+            let (negative, direct) = match ap {
+                [] => (false, false),
+                ["neg"] => (true, false),
+                ["direct"] => (false, true),
+                _ => return None,
+            };
             // a real signed BOLT-11 invoice for the hash, issued at `now`
             use lightning_signer::invoice::Invoice;
             use lightning_signer::lightning::types::payment::PaymentSecret;
@@ -797,12 +930,26 @@ fn exec_op(w: &mut World, t: &[&str], at: usize, co: &mut CaseOut) -> Option<(St
                 .amount_milli_satoshis(amt)
                 .build_signed(|hash| Secp256k1::new().sign_ecdsa_recoverable(hash, &key))
                 .ok()?;
-            let r = w.ctx.node.add_invoice(Invoice::Bolt11(inv));
-            let cls = approval_class(&r, "invoice", co);
+            let r = if direct {
+                w.ctx.node.add_invoice(Invoice::Bolt11(inv))
+            } else if negative {
+                NegativeApprover().handle_proposed_invoice(&w.ctx.node, Invoice::Bolt11(inv))
+            } else {
+                PositiveApprover().handle_proposed_invoice(&w.ctx.node, Invoice::Bolt11(inv))
+            };
+            let cls = approval_class(&r, if negative { "invoice-neg" } else { "invoice" }, co);
+            if negative {
+                co.tags.insert(format!("invoice-neg:{}", cls));
+            }
             w.note_answer(h, r.ok(), amt, now + expiry + INVOICE_PRUNE_TIME, co);
             Some((cls, false))
         }
-        ["cpsign", c, kind, off, rcv] => {
+        ["cpsign", c, kind, off, rcv, ph @ ..] => {
+            let phase1 = match ph {
+                [] => false,
+                ["p1"] => true,
+                _ => return None,
+            };
             let c: usize = c.parse().ok()?;
             let is_new = match *kind {
                 "new" => true,
@@ -823,8 +970,36 @@ fn exec_op(w: &mut World, t: &[&str], at: usize, co: &mut CaseOut) -> Option<(St
             let to_holder = BASE_HOLDER.saturating_sub(total(&rcv));
             let to_cp = BASE_CP.saturating_sub(total(&off));
             let (o2, r2) = (to_info(&off), to_info(&rcv));
+            let cp_funding = w.chans[c].ctx.setup.counterparty_points.funding_pubkey;
+            if phase1 {
+                co.tags.insert("cpsign:phase1".into());
+            }
             let r = w.ctx.node.with_channel(&id, |chan| {
-                chan.sign_counterparty_commitment_tx_phase2(&point, n, FEERATE, to_holder, to_cp, o2.clone(), r2.clone())
+                if phase1 {
+                    // phase 1: the caller hands over the transaction and its witness scripts
+                    let channel_parameters = chan.make_channel_parameters();
+                    let parameters = channel_parameters.as_counterparty_broadcastable();
+                    let keys = chan.make_counterparty_tx_keys(&point);
+                    let htlcs = Channel::htlcs_info2_to_oic(&o2, &r2);
+                    let scripts = build_tx_scripts(
+                        &keys,
+                        to_cp,
+                        to_holder,
+                        &htlcs,
+                        &parameters,
+                        &chan.keys.pubkeys().funding_pubkey,
+                        &cp_funding,
+                    )
+                    .expect("scripts");
+                    let witscripts: Vec<Vec<u8>> = scripts.iter().map(|s| s.as_bytes().to_vec()).collect();
+                    let ctx = chan.make_counterparty_commitment_tx_with_keys(keys, n, FEERATE, to_holder, to_cp, htlcs);
+                    let tx = ctx.trust().built_transaction().transaction.clone();
+                    chan.sign_counterparty_commitment_tx(&tx, &witscripts, &point, n, FEERATE, o2.clone(), r2.clone())
+                        .map(|_| ())
+                } else {
+                    chan.sign_counterparty_commitment_tx_phase2(&point, n, FEERATE, to_holder, to_cp, o2.clone(), r2.clone())
+                        .map(|_| ())
+                }
             });
             let had = !off.is_empty() || !rcv.is_empty();
             Some((
@@ -849,7 +1024,12 @@ fn exec_op(w: &mut World, t: &[&str], at: usize, co: &mut CaseOut) -> Option<(St
                 had,
             ))
         }
-        ["hval", c, kind, off, rcv] => {
+        ["hval", c, kind, off, rcv, ph @ ..] => {
+            let phase1 = match ph {
+                [] => false,
+                ["p1"] => true,
+                _ => return None,
+            };
             let c: usize = c.parse().ok()?;
             let is_new = match *kind {
                 "new" => true,
@@ -869,8 +1049,41 @@ fn exec_op(w: &mut World, t: &[&str], at: usize, co: &mut CaseOut) -> Option<(St
             let mut cctx = channel_commitment(&w.ctx, &w.chans[c].ctx, n, FEERATE, to_b, to_c, o2.clone(), r2.clone());
             let (csig, hsigs) = counterparty_sign_holder_commitment(&w.ctx, &w.chans[c].ctx, &mut cctx);
             let id = w.chans[c].ctx.channel_id.clone();
+            let cp_funding = w.chans[c].ctx.setup.counterparty_points.funding_pubkey;
+            if phase1 {
+                co.tags.insert("hval:phase1".into());
+            }
             let r = w.ctx.node.with_channel(&id, |chan| {
-                chan.validate_holder_commitment_tx_phase2(n, FEERATE, to_b, to_c, o2.clone(), r2.clone(), &csig, &hsigs)
+                if phase1 {
+                    let channel_parameters = chan.make_channel_parameters();
+                    let parameters = channel_parameters.as_holder_broadcastable();
+                    let ctx = cctx.tx.as_ref().unwrap();
+                    let trusted = ctx.trust();
+                    let htlcs = Channel::htlcs_info2_to_oic(&o2, &r2);
+                    let scripts = build_tx_scripts(
+                        trusted.keys(),
+                        to_b,
+                        to_c,
+                        &htlcs,
+                        &parameters,
+                        &chan.keys.pubkeys().funding_pubkey,
+                        &cp_funding,
+                    )
+                    .expect("scripts");
+                    let witscripts: Vec<Vec<u8>> = scripts.iter().map(|s| s.as_bytes().to_vec()).collect();
+                    chan.validate_holder_commitment_tx(
+                        &trusted.built_transaction().transaction,
+                        &witscripts,
+                        n,
+                        FEERATE,
+                        o2.clone(),
+                        r2.clone(),
+                        &csig,
+                        &hsigs,
+                    )
+                } else {
+                    chan.validate_holder_commitment_tx_phase2(n, FEERATE, to_b, to_c, o2.clone(), r2.clone(), &csig, &hsigs)
+                }
             });
             let had = !off.is_empty() || !rcv.is_empty();
             Some((
